@@ -4469,6 +4469,137 @@ impl Scenario for Values {
     }
 }
 
+// ---- MultiRangeReader driven through its own API (the typed scenarios only see it as a `Read`)
+
+/// Ranges that touch, overlap or leave gaps; `next_range()` called by the caller with part of the
+/// current range unread; ranges added while reading.  Every byte of the medium is a function of its
+/// position, so each byte a read returns is attributable.
+struct MultiRangeApi;
+
+impl Scenario for MultiRangeApi {
+    fn name(&self) -> String {
+        "range/multi_range_api".into()
+    }
+    fn budget(&self, tier: Tier) -> u64 {
+        match tier {
+            Tier::Quick => 30_000,
+            Tier::Thorough => 1_000_000,
+        }
+    }
+    fn run(&self, cx: &mut Run) {
+        let cfg = cx.src.chan("cfg");
+        let n = 40 + cfg.below(200) as usize;
+        let medium: Vec<u8> = (0..n).map(|i| (i as u8).wrapping_mul(7).wrapping_add(3)).collect();
+        // ranges: each starts where the previous one ended (adjacent), after a gap, or inside it (overlap)
+        let nr = 1 + cfg.below(4) as usize;
+        let mut ranges: Vec<(u64, u64)> = vec![];
+        let mut at = cfg.below(8);
+        for _ in 0..nr {
+            let start = match cfg.below(4) {
+                0 | 1 => at,
+                2 => at + 1 + cfg.below(9),
+                _ => at.saturating_sub(1 + cfg.below(4)),
+            };
+            let len = cfg.below(12);
+            let end = (start + len).min(n as u64);
+            let start = start.min(end);
+            ranges.push((start, end));
+            at = end;
+        }
+        cx.ev(format!("medium of {} bytes, ranges {:?}", n, ranges));
+        let mut rd = MultiRangeReader::new(Cursor::new(medium.clone()), ranges.clone());
+        // model
+        let mut cur = 0usize;
+        let mut pos = 0u64;
+        let planned = 3 + cfg.below(14);
+        let mut ops = cx.src.ops("ops", planned);
+        let mut nops = 0u64;
+        while let Some(o) = ops.next() {
+            nops += 1;
+            match o[0] % 8 {
+                0 | 1 | 2 | 3 => {
+                    let want = [0usize, 1, 2, 3, 5, 8, 20][(o[1] % 7) as usize];
+                    let mut buf = vec![0xEEu8; want];
+                    let got = rd.read(&mut buf);
+                    // model: skip exhausted ranges, then read within the current one
+                    while cur < ranges.len() && ranges[cur].0 + pos >= ranges[cur].1 {
+                        if cur + 1 < ranges.len() {
+                            cur += 1;
+                            pos = 0;
+                        } else {
+                            break;
+                        }
+                    }
+                    let expect: Vec<u8> = if cur < ranges.len() && ranges[cur].0 + pos < ranges[cur].1 {
+                        let a = (ranges[cur].0 + pos) as usize;
+                        let k = want.min((ranges[cur].1 - ranges[cur].0 - pos) as usize);
+                        medium[a..a + k].to_vec()
+                    } else {
+                        vec![]
+                    };
+                    match got {
+                        Ok(k) => {
+                            cx.ev(format!("read({}) -> {} bytes", want, k));
+                            // a Read may return fewer bytes than asked for, never other bytes
+                            if k > expect.len() || buf[..k] != expect[..k] || (k == 0 && want > 0 && !expect.is_empty()) {
+                                cx.violate("wrong_value", "MultiRangeReader.read", format!("read({}) in range #{} {:?} at offset {} returned {:?}, the medium holds {:?} there", want, cur, ranges.get(cur), pos, &buf[..k.min(want)], expect));
+                                return;
+                            }
+                            pos += k as u64;
+                        }
+                        Err(e) => {
+                            cx.violate("unexpected_error", "MultiRangeReader.read", format!("read({}) failed on an in-memory medium: {}", want, e));
+                            return;
+                        }
+                    }
+                }
+                4 | 5 => {
+                    let r = rd.next_range();
+                    let m = cur + 1 < ranges.len();
+                    cx.ev(format!("next_range() -> {} (range #{} had {} of {} bytes read)", r, cur, pos, ranges.get(cur).map(|x| x.1 - x.0).unwrap_or(0)));
+                    if m {
+                        if ranges[cur].0 + pos < ranges[cur].1 {
+                            cx.probe("next_range_with_bytes_unread");
+                        }
+                        cur += 1;
+                        pos = 0;
+                    }
+                    if r != m {
+                        cx.violate("wrong_value", "MultiRangeReader.next_range", format!("next_range() = {} with {} ranges and range #{} current", r, ranges.len(), cur));
+                        return;
+                    }
+                }
+                6 => {
+                    let start = (o[1] % (n as u64 + 1)).min(n as u64);
+                    let end = (start + o[2] % 10).min(n as u64);
+                    rd.add_range(start, end);
+                    ranges.push((start, end));
+                    cx.ev(format!("add_range({}, {})", start, end));
+                }
+                _ => {
+                    let (c, t) = (rd.current_range(), rd.total_length());
+                    let mt: u64 = ranges.iter().map(|r| r.1 - r.0).sum();
+                    cx.ev(format!("current_range() -> {:?}, total_length() -> {}", c, t));
+                    if t != mt {
+                        cx.violate("wrong_value", "MultiRangeReader.total_length", format!("total_length() = {} for ranges {:?}", t, ranges));
+                        return;
+                    }
+                    // (current_range may lag behind the model while the reader has not yet stepped over an
+                    // exhausted range: only a range the model has not reached yet would be wrong)
+                    if let Some(c) = c {
+                        if !ranges[..=cur.min(ranges.len() - 1)].contains(&c) {
+                            cx.violate("wrong_value", "MultiRangeReader.current_range", format!("current_range() = {:?}, the model is at range #{} of {:?}", c, cur, ranges));
+                            return;
+                        }
+                    }
+                }
+            }
+        }
+        cx.steps = nops;
+        cx.nontrivial = nops >= 3;
+    }
+}
+
 fn main() {
     let mut spec = CheckSpec::new(
         "C13",
@@ -4548,5 +4679,6 @@ fn main() {
     ] {
         spec.scenarios.push(Box::new(Sc { name, kind, quick }));
     }
+    spec.scenarios.push(Box::new(MultiRangeApi));
     zsim_core::driver::main(spec);
 }
